@@ -357,13 +357,122 @@ def evolvable_item(rec, tier):
   rec.nt(('evolvable', n))
 
 
+GENOMES = ['', '1', '1,2', '2,1']
+
+
+class IntSeq(pg.hyper.CustomHyper):
+  """User-defined placeholder: a comma-separated genome denotes a list of ints."""
+
+  def custom_decode(self, dna):
+    return [int(x) for x in dna.value.split(',') if x != '']
+
+  def custom_encode(self, value):
+    if not isinstance(value, list) or not all(isinstance(x, int) for x in value):
+      raise ValueError('not a list of ints')
+    return pg.DNA(','.join(str(x) for x in value))
+
+  def next_dna(self, dna=None):
+    if dna is None:
+      return pg.DNA(GENOMES[0])
+    i = GENOMES.index(dna.value)
+    return pg.DNA(GENOMES[i + 1]) if i + 1 < len(GENOMES) else None
+
+  def random_dna(self, random_generator=None, previous_dna=None):
+    import random
+    return pg.DNA((random_generator or random).choice(GENOMES))
+
+
+def _parse(g):
+  return [int(x) for x in g.split(',') if x != '']
+
+
+def _custom_templates():
+  """name -> (builder, [(dna literal, reference value)])"""
+  G = GENOMES
+  out = {}
+  out['alone'] = (lambda: pg.Dict(a=IntSeq()), [(g, dict(a=_parse(g))) for g in G])
+  out['two-independent'] = (lambda: pg.Dict(a=IntSeq(), b=IntSeq()),
+                            [([g, h], dict(a=_parse(g), b=_parse(h))) for g in G for h in G])
+  out['in-list'] = (lambda: pg.List([IntSeq(), pg.oneof([5, 6])]), [([g, j], [_parse(g), 5 + j]) for g in G for j in range(2)])
+  out['conditional'] = (lambda: pg.Dict(a=pg.oneof([IntSeq(), None]), b=pg.oneof([1, 2]), c=IntSeq()),
+                        [([(0, g), j, h], dict(a=_parse(g), b=1 + j, c=_parse(h))) for g in G for j in range(2) for h in G]
+                        + [([1, j, h], dict(a=None, b=1 + j, c=_parse(h))) for j in range(2) for h in G])
+  cands = [None, 7, 8]
+  many = []
+  for i, j in itertools.permutations(range(3), 2):
+    per_i = [((0, g), _parse(g)) for g in G] if i == 0 else [(i, cands[i])]
+    per_j = [((0, g), _parse(g)) for g in G] if j == 0 else [(j, cands[j])]
+    many += [([li, lj], dict(a=[vi, vj])) for li, vi in per_i for lj, vj in per_j]
+  out['manyof-candidate'] = (lambda: pg.Dict(a=pg.manyof(2, [IntSeq(), 7, 8])), many)
+  out['in-object'] = (lambda: fx.Node(x=IntSeq(), items=[pg.oneof([IntSeq(), 3])], d={}),
+                      [([g, (0, h)], ('Node', _parse(g), [_parse(h)])) for g in G for h in G]
+                      + [([g, 1], ('Node', _parse(g), [3])) for g in G])
+  return out
+
+
+def custom_item(rec, name):
+  """User-defined placeholders alone, side by side, conditional, as manyof candidates and inside objects."""
+  build, table = _custom_templates()[name]
+  tr = dict(kind='custom', template=name)
+  value = build()
+  before = snapshot(value)
+  t = pg.template(value)
+  spec = t.dna_spec()
+  want_lits = sorted(repr(l) for l, _ in table)
+  try:
+    got_lits = sorted(repr(d.to_json(type_info=False)) for d in spec.iter_dna())
+    if got_lits != want_lits:
+      rec.viol(f'iter-dna/custom-{name}', f'iter_dna yields {len(got_lits)} DNAs, the template admits {len(want_lits)}: '
+               f'{sorted(set(got_lits) ^ set(want_lits))[:4]}', tr)
+  except Exception as e:  # pylint: disable=broad-except
+    rec.viol(f'iter-dna-raises:{type(e).__name__}/custom-{name}', str(e), tr)
+  for lit, want in table:
+    rec.evals += 1
+    rec.trans += 1
+    trd = dict(tr, dna=lit)
+    try:
+      v = t.decode(pg.DNA(lit))
+    except Exception as e:  # pylint: disable=broad-except
+      rec.viol(f'decode-raises:{type(e).__name__}/custom-{name}', f'decode({lit!r}): {e}', trd)
+      continue
+    if has_hyper(v) or not pg.is_deterministic(v):
+      rec.viol(f'placeholder-left/custom-{name}', f'decode({lit!r}) = {v!r}', trd)
+    if plain(v) != want:
+      rec.viol(f'decode-differs-from-reference/custom-{name}', f'decode({lit!r}) = {plain(v)!r}, the template denotes {want!r}', trd)
+    if plain(t.decode(pg.DNA(lit))) != plain(v):
+      rec.viol(f'decode-not-repeatable/custom-{name}', f'{lit!r}', trd)
+    try:
+      back = t.encode(v)
+      if back != pg.DNA(lit):
+        rec.viol(f'encode-not-inverse/custom-{name}', f'encode(decode({lit!r})) = {back!r}', trd)
+    except Exception as e:  # pylint: disable=broad-except
+      rec.viol(f'encode-raises:{type(e).__name__}/custom-{name}', f'encode(decode({lit!r})): {e}', trd)
+    try:
+      if plain(pg.materialize(value, pg.DNA(lit))) != want:
+        rec.viol(f'materialize-differs/custom-{name}', f'{lit!r}', trd)
+    except Exception as e:  # pylint: disable=broad-except
+      rec.viol(f'materialize-raises:{type(e).__name__}/custom-{name}', f'{lit!r}: {e}', trd)
+    if snapshot(value) != before:
+      rec.viol(f'template-modified/custom-{name}', f'decode/encode of {lit!r} changed the hyper value', trd)
+      before = snapshot(value)
+  try:
+    allv = [repr(plain(x)) for x in pg.iter(value)]
+    if sorted(allv) != sorted(repr(w) for _, w in table):
+      rec.viol(f'iter-values/custom-{name}', f'pg.iter yields {len(allv)} values ({len(set(allv))} distinct), expected {len(table)}', tr)
+  except Exception as e:  # pylint: disable=broad-except
+    rec.viol(f'iter-raises:{type(e).__name__}/custom-{name}', str(e), tr)
+  if snapshot(value) != before:
+    rec.viol(f'template-modified-by-iter/custom-{name}', 'pg.iter changed the hyper value', tr)
+  rec.nt(('custom', name))
+
+
 def run(ctx):
   ctx.rule = ('every template built from the DNASpec grammar (oneof / manyof in every distinct x sorted mode, conditional '
               'candidates with nested placeholders, floats) hosted in a dict, a list and an object x every valid DNA: no '
               'placeholder left, equality with an independent reference decode, encode(decode(dna)) = dna (candidates are '
               'pairwise distinguishable by construction), repeatable decode, materialize agrees, template snapshot unchanged '
               '(also after writing to the decoded value), pg.iter yields space_size pairwise different values; typed fields and '
-              '`where` filters; distinct_nontrivial = (template, host) passing all clauses')
+              '`where` filters; user-defined (custom) placeholders in 6 shapes x all their DNAs; evolvable placeholders; distinct_nontrivial = (template, host) passing all clauses')
   g = D.grammar(60 if ctx.thorough else 24, 'thorough' if ctx.thorough else 'quick')
   if not ctx.thorough:
     g = g[::2]
@@ -374,13 +483,15 @@ def run(ctx):
   ctx.pmap(spec_item, items, chunk=2)
   ctx.pmap(typed_item, [0], chunk=1)
   ctx.pmap(where_item, list(HOSTS), chunk=1)
+  ctx.pmap(custom_item, list(_custom_templates()), chunk=1)
   ctx.pmap(evolvable_item, [ctx.tier], chunk=1)
   if ctx.extra.get('choice_caps_hit'):
     ctx.cap('evolvable: choice-sequence cap hit; all sequences below the cap were executed')
   ctx.states += len(items)
   ctx.note('templates', len(items))
   ctx.sample(dict(spec=g[3], host='obj'))
-  ctx.assumptions += ['evolvable placeholders: one template, all chains of two mutations over all choice sequences up to the cap; custom placeholders not covered',
+  ctx.assumptions += ['evolvable placeholders: one template, all chains of two mutations over all choice sequences up to the cap',
+                      'custom placeholders: one user-defined class (string genome -> int list) with 4 genomes in 6 template shapes',
                       'floats take bounds and one interior representative']
 
 
@@ -393,5 +504,7 @@ def replay(rec, data):
     typed_item(rec, 0)
   elif k == 'evolvable':
     evolvable_item(rec, 'thorough')
+  elif k == 'custom':
+    custom_item(rec, data['template'])
   else:
     where_item(rec, data['host'])
